@@ -18,6 +18,7 @@ TITLES = [
     ("C02", r"rows-differ_(join|selfjoin|derived|subquery)", "join/subquery answers differ from SQL: NULL = NULL matches in hash/semi joins, NOT IN over NULLs, outer-join ON-condition pushdown", "src/executor/hash_join.rs; src/planner/rules/plan.rs"),
     ("C02", r"rows-differ_proj_", "NULL-unsafe scalar rewrites (a*0, a-a, a=a, conflicting ranges) evaluate to non-NULL on NULL rows", "src/planner/rules/expr.rs"),
     ("C03", r"reopen-fails", "CREATE VIEW consumes a table id that is not logged in the manifest: a table created after a view is replayed under a different id and the database no longer opens", "src/storage/secondary/manifest.rs (replay assigns ids by catalog order); src/executor/create_view.rs"),
+    ("C18", r"database-does-not-open", "every row-set index is decoded when the database is opened: one corrupted *.idx file makes Database::new_on_disk panic, so tables that are not affected cannot be read either", "src/storage/secondary/storage.rs bootstrap (DiskRowset::open for all row-sets); src/db.rs new_on_disk unwrap"),
     ("C05", r"outcome_rows-vs-err", "key-range scan fails on disk when the primary key is not the first table column (start_rowid decodes column 0's first keys as i32 and panics); the memory engine answers", "src/storage/secondary/rowset/disk_rowset.rs:141 start_rowid"),
     ("C05", r"rows-differ|column-types", "NULL inserted into a NOT NULL column is stored as 0/'' on disk but as NULL in memory (no NOT NULL check on INSERT)", "src/executor/insert.rs; src/storage/secondary/column (non-nullable encodings)"),
 ]
